@@ -20,15 +20,19 @@
   logged operations on a fresh table (`heading_ids_table_fed_in_close_order`); the renderer writes `<hN id="…">` for every
   Heading node it visits (`heading_start_tag_rendered`).
 
-  What needs a hypothesis: (a) "every Heading node of the final tree has been handed to Close" (`headingsClosedOK`) and, for
-  the document-order form of distinctness, (b) "no Heading node occurs twice in the tree" (`headingsOnceOK`) — decidable
-  predicates of `src` — are facts about the block DRIVER (every node appended to the tree is
-  pushed on `openedBlocks`, every opened block is closed before `parseBlocks` returns, child lists are duplicate-free) — the
-  AST / driver well-formedness other packages work on — not about the option. (a) is an explicit hypothesis of
-  `every_heading_has_id`, `heading_ids_rendered`, (a) and (b) of `heading_ids_pairwise_distinct`; the full statements without
-  them are `HeadingsAlwaysClosed` / `HeadingsAlwaysOnce` (stated, not proved). The tie evaluates it on every document (flag `c1`): it never fails.
+  The CLOSE DISCIPLINE of the block driver (GM.Proof.ConvertHWF*, for the driver with paragraph transformers and the option,
+  every byte string): the node store is a well-formed tree at every step (`TreeWF`: child edges point to existing nodes
+  whose parent pointer agrees, child lists duplicate-free); the only Heading nodes that ever get a parent are the ones
+  `openBlocks` appends and pushes on the open-block stack (the tree surgery of paragraph / setext heading / list Close and of
+  the link reference transformer inserts only Paragraph / TextBlock nodes it has just created); a Heading node on the stack was
+  put there by a heading parser; every slot `closeBlocks` removes from the stack was handed to its parser's `Close` unless
+  its node has no parent — and then it is in no child list; the stack is empty when `parseBlocks` returns
+  (`headings_always_closed`, `headings_always_once`, `block_phase_close_discipline`). A Setext heading IS the node the setext
+  parser's Open created and the driver pushed (Close moves the paragraph's lines into it and unlinks the paragraph), and the
+  AutoHeadingID block runs in that very Close call. Hence `every_heading_has_id`, `heading_ids_pairwise_distinct`,
+  `heading_ids_rendered`, `c15_end_to_end` hold WITHOUT hypotheses other than `convertH … = .ok html` / `parseDocH … = .ok t`.
 -/
-import GM.Proof.ConvertHE2E
+import GM.Proof.ConvertHWFMain
 
 namespace GM.Props.C15E2E
 open GM GM.Text GM.Convert GM.ConvertH
@@ -73,11 +77,27 @@ theorem attributes_are_generated_ids (guard : Bool) (src : Bytes) (hs : HS) (st 
   obtain ⟨h1, _, _, _, g, hg, hn, hi⟩ := treeAttrs_entry hs hr.1 i as ha
   exact ⟨g, hg, hn, by rw [h1, hi]⟩
 
-/-- **Every heading carries an id** (under the driver well-formedness hypothesis): every Heading node of the tree
-    `convertH true` renders carries exactly one attribute, `id`, with a byte-string value. -/
+/-- **every Heading node of the final tree was handed to Close** (hypothesis (a) of the first delivery, now a theorem):
+    for every byte string, when the block phase with the option returns, every Heading node of the final block tree has
+    its attribute entry. -/
+theorem headings_always_closed (src : Bytes) : headingsClosedOK true src = true := headingsClosedOK_all true src
+
+/-- **no Heading node occurs twice in the final tree** (hypothesis (b), now a theorem) -/
+theorem headings_always_once (src : Bytes) : headingsOnceOK true src = true := headingsOnceOK_all true src
+
+/-- **the close discipline, projected to `convertCore`'s block phase**: whenever the block phase with the option
+    returns, `convertCore`'s block phase returns the same store, the open-block stack is empty and the store is a
+    well-formed tree -/
+theorem block_phase_close_discipline (guard : Bool) (src : Bytes) (hs : HS) (st : Blocks.St)
+    (h : blockPhaseH true guard src = .ok (hs, st)) :
+    blockPhase guard src = .ok st ∧ st.pc.opened = [] ∧ TreeWF st := blockPhase_closed_of_H guard src hs st h
+
+/-- **Every heading carries an id**: every Heading node of the tree `convertH true` renders carries exactly one
+    attribute, `id`, with a byte-string value. Unconditional (every byte string). -/
 theorem every_heading_has_id (uc : List (Nat × (Bool × Bool))) (src : Bytes) (t : GM.Node)
-    (h : parseDocH true true uc src = .ok t) (hc : headingsClosedOK true src = true) :
+    (h : parseDocH true true uc src = .ok t) :
     ∀ a ∈ headingAttrs t, ∃ v, a = idAttr v := by
+  have hc := headingsClosedOK_all true src
   obtain ⟨hs, st, hb, hh, ht⟩ := parseDocH_spec true uc src t h
   unfold headingsClosedOK at hc
   rw [hb] at hc
@@ -132,12 +152,14 @@ theorem heading_ids_distinct_by_node (guard : Bool) (src : Bytes) (hs : HS) (st 
   rw [h] at hr
   exact attrs_distinct_by_node hs hr.1 i j ai aj hij hi hj
 
-/-- **All ids of the document are pairwise distinct** (under the driver well-formedness hypothesis): the Heading nodes of
-    the rendered tree carry, in document order, `id = v` for a duplicate-free list of non-empty values `v`, one per
-    heading, each of them returned by a `Generate` call of the block phase. -/
+/-- **All ids of the document are pairwise distinct**: the Heading nodes of the rendered tree carry, in document order,
+    `id = v` for a duplicate-free list of non-empty values `v`, one per heading, each of them returned by a `Generate`
+    call of the block phase. Unconditional (every byte string). -/
 theorem heading_ids_pairwise_distinct (uc : List (Nat × (Bool × Bool))) (src : Bytes) (t : GM.Node)
-    (h : parseDocH true true uc src = .ok t) (hc : headingsClosedOK true src = true) (ho : headingsOnceOK true src = true) :
+    (h : parseDocH true true uc src = .ok t) :
     ∃ ids : List Bytes, headingAttrs t = ids.map idAttr ∧ ids.Nodup ∧ ∀ v ∈ ids, v ≠ [] := by
+  have hc := headingsClosedOK_all true src
+  have ho := headingsOnceOK_all true src
   obtain ⟨hs, st, hb, hh, ht⟩ := parseDocH_spec true uc src t h
   unfold headingsClosedOK at hc
   unfold headingsOnceOK at ho
@@ -169,18 +191,18 @@ theorem heading_start_tag_rendered (o : ROpts) (t : GM.Node) (p : Nat × Option 
 def startTag (lv : Nat) (v : Bytes) : Bytes :=
   strBytes "<h" ++ [UInt8.ofNat (48 + lv)] ++ [32, 105, 100, 61, 34] ++ v ++ [34, 62]
 
-/-- **The ids are in the HTML** (under the driver well-formedness hypothesis (a)): when `convertH true` returns `html`,
+/-- **The ids are in the HTML** (unconditional): when `convertH true` returns `html`,
     then for every Heading node the renderer visits (level `lv`) there is a non-empty `v` such that the node's attributes
     are `id = v` and the start tag `<hlv id="v">` — the id itself, nothing escaped — is a contiguous part of `html`. -/
 theorem heading_ids_rendered (uc : List (Nat × (Bool × Bool))) (o : ROpts) (src : Bytes) (html : Bytes)
-    (h : convertH true uc o src = .ok html) (hc : headingsClosedOK true src = true) :
+    (h : convertH true uc o src = .ok html) :
     ∃ t, parseDocH true true uc src = .ok t ∧
       ∀ p ∈ rHeadings t, ∃ v, v ≠ [] ∧ p.2 = idAttr v ∧ startTag p.1 v <:+: html := by
   unfold convertH convertHWith at h
   obtain ⟨t, ht, hr⟩ := ebind_ok h
   refine ⟨t, ht, fun p hp => ?_⟩
   have hmem := rHeadings_sub t p hp
-  obtain ⟨v, hv⟩ := every_heading_has_id uc src t ht hc _ hmem
+  obtain ⟨v, hv⟩ := every_heading_has_id uc src t ht _ hmem
   obtain ⟨v', hv', hne⟩ := heading_ids_nonempty uc src t ht _ hmem _ hv
   have e : v' = v := by
     rw [hv] at hv'
@@ -205,13 +227,34 @@ theorem heading_ids_document_local (uc : List (Nat × (Bool × Bool))) (o : ROpt
     ((before ++ src :: after).map (convertH true uc o))[before.length]? = some (convertH true uc o src) := by
   simp
 
-/-- the full statements of `every_heading_has_id` / `heading_ids_rendered` (and, with `HeadingsAlwaysOnce`,
-    `heading_ids_pairwise_distinct`) need this; STATED, NOT PROVED (a driver invariant; evaluated by the tie on every
-    document: never false) -/
-def HeadingsAlwaysClosed : Prop := ∀ src : Bytes, headingsClosedOK true src = true
-
-/-- STATED, NOT PROVED (AST well-formedness of the block phase's result; evaluated by the tie: never false) -/
-def HeadingsAlwaysOnce : Prop := ∀ src : Bytes, headingsOnceOK true src = true
+/-- **C15, end to end.** When `convertH true` — the model of `goldmark.New(WithParserOptions(WithAutoHeadingID()), …).Convert`,
+    tied to it byte for byte — returns `html` for a byte string `src`: `html` is the rendering of the tree `t` the parser
+    model returns, and for the Heading nodes the renderer visits, in document order (`rHeadings t`: level, attributes):
+    * the attributes of each are exactly `id = v`, and the list of these attribute lists is DUPLICATE-FREE (all ids distinct);
+    * every `v` is NON-EMPTY, consists of `a-z 0-9 -` (nothing for EscapeHTML to change);
+    * the start tag the renderer writes for it, `<hN id="v">`, is a contiguous part of `html`.
+    The ids are a function of `src` alone (`heading_ids_document_local`). -/
+theorem c15_end_to_end (uc : List (Nat × (Bool × Bool))) (o : ROpts) (src : Bytes) (html : Bytes)
+    (h : convertH true uc o src = .ok html) :
+    ∃ t, parseDocH true true uc src = .ok t ∧ html = render o.rcfg t ∧
+      ((rHeadings t).map (·.2)).Nodup ∧
+      ∀ p ∈ rHeadings t, ∃ v, p.2 = idAttr v ∧ v ≠ [] ∧ (∀ c ∈ v, IdByte c = true) ∧ startTag p.1 v <:+: html := by
+  obtain ⟨t, ht, hr⟩ := heading_ids_rendered uc o src html h
+  obtain ⟨ids, hi, hn, _⟩ := heading_ids_pairwise_distinct uc src t ht
+  refine ⟨t, ht, ?_, ?_, fun p hp => ?_⟩
+  · unfold convertH convertHWith at h
+    obtain ⟨t', ht', hr'⟩ := ebind_ok h
+    rw [ht] at ht'
+    cases ht'
+    unfold renderDoc at hr'
+    split at hr'
+    · cases hr'
+    · cases hr'; rfl
+  · have hs := rHeadings_sublist t
+    rw [hi] at hs
+    exact List.Nodup.sublist hs (nodup_map_idAttr ids hn)
+  · obtain ⟨v, hne, hv, htag⟩ := hr p hp
+    exact ⟨v, hv, hne, (heading_ids_alphabet uc src t ht _ (rHeadings_sub t p hp) v hv).1, htag⟩
 
 /-! ### tests on literals (not theorems), evaluated by the kernel -/
 
@@ -220,9 +263,8 @@ example : (convertH true [] {} [35, 32, 97, 10, 35, 32, 97, 10, 97, 10, 61, 10])
     some (strBytes "<h1 id=\"a\">a</h1>\n<h1 id=\"a-1\">a</h1>\n<h1 id=\"a-2\">a</h1>\n") := by
   decide +kernel
 
--- the hypothesis is satisfiable (same source; an empty heading inside a quote `> #⏎`)
-example : headingsClosedOK true [35, 32, 97, 10, 35, 32, 97, 10, 97, 10, 61, 10] = true := by decide +kernel
-example : headingsClosedOK true [62, 32, 35, 10] = true := by decide +kernel
-example : headingsOnceOK true [35, 32, 97, 10, 35, 32, 97, 10, 97, 10, 61, 10] = true := by decide +kernel
+-- the hypothesis `convertH … = .ok html` is satisfiable: the literal above, and `> #⏎` (an empty heading inside a quote)
+example : (convertH true [] {} [62, 32, 35, 10]).toOption =
+    some (strBytes "<blockquote>\n<h1 id=\"heading\"></h1>\n</blockquote>\n") := by decide +kernel
 
 end GM.Props.C15E2E
